@@ -148,6 +148,72 @@ Proof.
   unfold cursor_changed, Edit, Frame, Wf; simp. repeat split; auto; lia.
 Qed.
 
+(* --- edits that leave the cursor where it is; synchronous validate -------- *)
+Lemma move_cursor_text s p : text (move_cursor s p) = text s.
+Proof.
+  unfold move_cursor.
+  match goal with |- context [if ?c then s else _] => destruct c end; [reflexivity|].
+  unfold cursor_changed; simp. reflexivity.
+Qed.
+
+Lemma move_cursor_to s p : 0 <= p <= len (text s) -> cur (move_cursor s p) = p.
+Proof.
+  intros Hp. unfold move_cursor.
+  destruct (len (text s) <? p) eqn:A; [lia|]. destruct (p <? 0) eqn:B; [lia|].
+  rewrite Z.max_r by lia. destruct (p =? cur s) eqn:E.
+  - apply Z.eqb_eq in E. auto.
+  - unfold cursor_changed; simp. reflexivity.
+Qed.
+
+Lemma set_text_spec s v : Wf s -> Edit s (set_text s v).
+Proof.
+  intros W. pose proof W as (Wc & _). unfold set_text.
+  set (s1 := if len v <? cur s then move_cursor s (len v) else s).
+  assert (E1 : Edit s s1 /\ cur s1 <= len v).
+  { unfold s1. destruct (len v <? cur s) eqn:A.
+    - split; [apply move_cursor_spec; auto|]. pose proof (len_nonneg v). rewrite move_cursor_to by lia. lia.
+    - split; [apply Edit_refl; auto|lia]. }
+  destruct E1 as (E1 & Hc1). destruct (str_eqb v (text s1)); [exact E1|].
+  pose proof E1 as (F1 & W1 & _). pose proof W1 as (Wc1 & _).
+  set (s2 := set_doc_fields s1 v (cur s1)).
+  assert (H2 : 0 <= cur s2 <= len (text s2)) by (unfold s2; simp; lia).
+  destruct (text_changed_Edit s2 H2) as (F & W' & Cn & _).
+  split; [|split; [exact W'|right; exact Cn]].
+  eapply Frame_trans; [exact F1|]. eapply Frame_trans; [|exact F].
+  unfold s2, Frame; simp. repeat split; reflexivity.
+Qed.
+
+Lemma delete_fwd_spec s n : Wf s -> Edit s (delete_fwd s n).
+Proof.
+  intros W. unfold delete_fwd. destruct (cur s <? len (text s)); [apply set_text_spec; auto|apply Edit_refl; auto].
+Qed.
+
+Lemma swap_chars_spec s s' e : Wf s -> swap_chars s = (s', e) -> Edit s s'.
+Proof.
+  intros W H. unfold swap_chars in H. destruct (2 <=? cur s).
+  - destruct (index (text s) (cur s - 2)); [|inversion H; subst; apply Edit_refl; auto].
+    destruct (index (text s) (cur s - 1)); inversion H; subst; [apply set_text_spec; auto|apply Edit_refl; auto].
+  - inversion H; subst. apply Edit_refl; auto.
+Qed.
+
+Lemma Edit_set_val s s1 v d : Edit s s1 -> dtext d = text s1 -> Edit s (set_val s1 v (Some d)).
+Proof.
+  intros (F & W & C) Hd. unfold Edit, Frame, Wf in *; simp.
+  split; [exact F|]. split; [|exact C].
+  destruct W as (W1 & _ & W3). split; [exact W1|]. split; [|exact W3].
+  intros _. exists d. split; [reflexivity|exact Hd].
+Qed.
+
+Lemma validate_sync_spec s ok epos sc : Wf s -> Edit s (validate_sync s ok epos sc).
+Proof.
+  intros W. unfold validate_sync. destruct (vst s =? 0); [|apply Edit_refl; auto].
+  destruct (vwt (cfg s) && negb ok).
+  - destruct sc.
+    + apply Edit_set_val; [apply move_cursor_spec; auto|]. rewrite move_cursor_text. reflexivity.
+    + apply Edit_set_val; [apply Edit_refl; auto|reflexivity].
+  - apply Edit_set_val; [apply Edit_refl; auto|reflexivity].
+Qed.
+
 (* --- go_to_completion ---------------------------------------------------- *)
 Lemma go_to_index_cases cs i cs1 : go_to_index cs i = Some cs1 ->
   (cs1 = cs /\ cs_comps cs = []) \/
